@@ -25,8 +25,6 @@ type FeatureLocal struct {
 
 	writeTimeout           time.Duration
 	writeApprovalCallbacks []api.WriteApprovalCallbackFunc
-	muxWriteReceived       sync.Mutex
-	writeApprovalReceived  map[string]map[model.MsgCounterType]int
 	pendingWriteApprovals  map[string]map[model.MsgCounterType]*pendingWriteApproval
 
 	bindings      []*model.FeatureAddressType // bindings to remote features
@@ -44,7 +42,6 @@ func NewFeatureLocal(id uint, entity api.EntityLocalInterface, ftype model.Featu
 		entity:                entity,
 		functionDataMap:       make(map[model.FunctionType]api.FunctionDataCmdInterface),
 		responseMsgCallback:   make(map[model.MsgCounterType][]func(result api.ResponseMessage)),
-		writeApprovalReceived: make(map[string]map[model.MsgCounterType]int),
 		pendingWriteApprovals: make(map[string]map[model.MsgCounterType]*pendingWriteApproval),
 		writeTimeout:          defaultMaxResponseDelay,
 	}
@@ -195,6 +192,8 @@ func (r *FeatureLocal) processWriteApprovalCallbacks(msg *api.Message) {
 type pendingWriteApproval struct {
 	timer  *time.Timer
 	device api.DeviceRemoteInterface
+	// the number of callbacks that approved this very write so far
+	approvals int
 }
 
 func (r *FeatureLocal) addPendingApproval(msg *api.Message) {
@@ -207,13 +206,6 @@ func (r *FeatureLocal) addPendingApproval(msg *api.Message) {
 
 	ski := msg.DeviceRemote.Ski()
 	msgCounter := *msg.RequestHeader.MsgCounter
-
-	// a write that becomes pending has no approvals yet: what the callbacks said
-	// about an earlier write with this counter (timed out meanwhile, or repeated
-	// by the remote device) does not count for this one
-	r.muxWriteReceived.Lock()
-	delete(r.writeApprovalReceived[ski], msgCounter)
-	r.muxWriteReceived.Unlock()
 
 	// the timer is created and registered while the lock is held. Its callback
 	// needs the same lock first, so it can not run before the timer is registered
@@ -287,45 +279,33 @@ func (r *FeatureLocal) ApproveOrDenyWrite(msg *api.Message, err model.ErrorType)
 		return
 	}
 
-	ski := msg.DeviceRemote.Ski()
-	msgCounter := *msg.RequestHeader.MsgCounter
-
+	// The approvals are counted on the pending write itself, in the same step
+	// that finds it pending: an approval can not be counted for another write
+	// that got the same SKI and counter in the meantime (the connection was
+	// removed and set up again, the write timed out and was repeated).
 	r.muxResponseCB.Lock()
-	ok := r.pendingApprovalOf(msg) != nil
-	count := len(r.writeApprovalCallbacks)
+	pending := r.pendingApprovalOf(msg)
+	enough := true
+	if pending != nil && len(r.writeApprovalCallbacks) > 1 && err.ErrorNumber == 0 {
+		pending.approvals++
+		enough = pending.approvals >= len(r.writeApprovalCallbacks)
+	}
 	r.muxResponseCB.Unlock()
 
 	// if the approval is not pending anymore, we are too late and the result has already been sent
-	if !ok {
+	if pending == nil {
 		return
 	}
 
-	// do we have enough approvals?
-	if count > 1 && err.ErrorNumber == 0 {
-		r.muxWriteReceived.Lock()
-		// do not replace an existing map, it holds the approvals
-		// of the other pending writes of this device
-		if r.writeApprovalReceived[ski] == nil {
-			r.writeApprovalReceived[ski] = make(map[model.MsgCounterType]int)
-		}
-		r.writeApprovalReceived[ski][msgCounter]++
-		enough := r.writeApprovalReceived[ski][msgCounter] >= count
-		r.muxWriteReceived.Unlock()
-
-		// do we have enough approve messages, if not exit
-		if !enough {
-			return
-		}
+	// do we have enough approve messages, if not exit
+	if !enough {
+		return
 	}
 
 	// the timeout or another verdict may have decided this write in the meantime
 	if !r.claimPendingApproval(msg) {
 		return
 	}
-
-	r.muxWriteReceived.Lock()
-	delete(r.writeApprovalReceived[ski], msgCounter)
-	r.muxWriteReceived.Unlock()
 
 	if err.ErrorNumber == 0 {
 		r.processWrite(msg)
@@ -355,10 +335,6 @@ func (r *FeatureLocal) CleanWriteApprovalCaches(ski string) {
 	}
 
 	delete(r.pendingWriteApprovals, ski)
-
-	r.muxWriteReceived.Lock()
-	delete(r.writeApprovalReceived, ski)
-	r.muxWriteReceived.Unlock()
 }
 
 // Remove subscriptions and bindings from local cache for a remote device
